@@ -3,7 +3,18 @@
 //! Core X1 (bounded-exhaustive enumeration request type x params x credential x endpoint
 //! configuration, every request sent to a REAL `ControlServer` on a unix socket that serves a
 //! freshly built `ControlState`) plus a small X2 search over the pairing sub-protocol, plus a
-//! malformed-line family on one long-lived connection.
+//! credential-string family (every configured secret x {exact, "", proper prefixes/suffixes,
+//! extensions, one-byte changes, case changes}, non-string `auth` members, a rotated-out admin
+//! token — Part C2), plus a malformed-line family on one long-lived connection.
+//!
+//! X2 clock: the pairing store runs on an injected clock (`PairingStore::with_clock`); every
+//! event advances it by `dt` seconds. `dt` = 0 keeps two claims in the same second (they then
+//! share one listing id `pair-<seconds>`), boundary ticks move the clock to one second before /
+//! after the expiry the endpoint itself reported. Oracles added for that: after a confirmed
+//! `pair.revoke` of an id NO token listed under that id authorises anything; a token that
+//! `pair.list` reports as revoked or does not report must not authorise; a store re-loaded from
+//! pairing.json must not resurrect a revoked/expired token; AT the expiry instant both outcomes
+//! are accepted (the statement does not say whether the instant is inclusive).
 //!
 //! Seam: `handle_request_line` / `handle_request_value` are `pub(crate)`, so the only public way
 //! to reach the endpoint logic is the socket transport (`ControlServer::start`). Every accept
@@ -1334,15 +1345,337 @@ fn run_group(case: &Value) -> Result<(Vec<(String, String)>, Vec<Obs>), String> 
 }
 
 // =================================================================================================
+// Part C2 — credential strings: every configured secret x string mutation x four role levels
+// =================================================================================================
+//
+// X1 uses ONE wrong credential ("not-the-token") that differs from every secret in its first
+// byte. This family enumerates the strings that COLLIDE with a configured secret: the secret
+// itself, "", proper prefixes / suffixes, proper extensions, same-length strings that differ in
+// one byte, case-changed copies — for the admin auth token, every pairing token (viewer,
+// operator, engineer, admin-from-file), the revoked and the expired pairing token and an admin
+// token that was rotated out by `config.set control.auth_token` — plus `auth` members that are
+// not JSON strings. Oracle (statement: "requests without a valid token or pairing token change
+// nothing and reveal no runtime data"): with an auth token configured only the EXACT string of a
+// currently valid secret maps to a role; every other string gets no ok reply, no result, no effect.
+// Left out on purpose (expected result not derivable from the statement): secrets padded with
+// white space (a trimming endpoint is not obviously wrong), a JSON array/object that CONTAINS the
+// valid secret, duplicate `auth` members, the secret in a differently named member, and every
+// configuration without an auth token (local trust, unconstrained).
+
+const ROTATED_TOKEN: &str = "rot-N3w-Adm1n-token";
+
+const CRED_SECRETS: [&str; 7] = ["admin", "pair:viewer", "pair:operator", "pair:engineer", "pair:admin", "revoked", "expired"];
+
+/// Requests sent with a credential that must be refused (one per role level + the take-over).
+fn cred_probe_requests() -> Vec<(&'static str, Option<Value>)> {
+    vec![
+        ("status", None),
+        ("restart", Some(json!({"mode":"warm"}))),
+        ("io.write", Some(json!({"address":"%QX0.0","value":"TRUE"}))),
+        ("pair.list", None),
+        ("config.set", Some(json!({"control.auth_token":"taken-over-token"}))),
+    ]
+}
+
+fn mutation_names(thorough: bool) -> Vec<String> {
+    let mut v: Vec<String> = [
+        "exact", "empty", "prefix:first", "prefix:half", "prefix:all-but-last", "suffix:all-but-first", "suffix:last4",
+        "ext:+x", "ext:+nul", "ext:x+", "ext:doubled", "flip:first", "flip:half", "flip:last", "case:upper", "case:lower", "case:swap",
+    ]
+    .iter()
+    .map(|s| s.to_string())
+    .collect();
+    if thorough {
+        // every proper prefix length and every single-byte change (lengths beyond the secret are skipped)
+        for k in 2..48 {
+            v.push(format!("prefix:{k}"));
+        }
+        for k in 1..48 {
+            v.push(format!("flip:{k}"));
+        }
+    }
+    v
+}
+
+fn mutation_class(name: &str) -> &'static str {
+    match name.split(':').next().unwrap_or("") {
+        "exact" => "exact",
+        "empty" => "empty",
+        "prefix" => "proper-prefix",
+        "suffix" => "proper-suffix",
+        "ext" => "proper-extension",
+        "flip" => "same-length-different",
+        "case" => "case-changed",
+        "json" => "non-string",
+        _ => "other",
+    }
+}
+
+/// The mutated string, or None when the mutation is not applicable to this secret (too short,
+/// not ASCII, or the result equals the secret).
+fn apply_mutation(secret: &str, name: &str) -> Option<String> {
+    if name == "exact" {
+        return Some(secret.to_string());
+    }
+    if !secret.is_ascii() || secret.len() < 6 {
+        return None;
+    }
+    let n = secret.len();
+    let b = secret.as_bytes();
+    let pos = |arg: &str| -> Option<usize> {
+        match arg {
+            "first" => Some(0),
+            "half" => Some(n / 2),
+            "last" => Some(n - 1),
+            k => k.parse::<usize>().ok().filter(|k| *k > 0 && *k < n - 1 && *k != n / 2),
+        }
+    };
+    let (kind, arg) = name.split_once(':').unwrap_or((name, ""));
+    let out: String = match (kind, arg) {
+        ("empty", _) => String::new(),
+        ("prefix", "first") => secret[..1].to_string(),
+        ("prefix", "half") => secret[..n / 2].to_string(),
+        ("prefix", "all-but-last") => secret[..n - 1].to_string(),
+        ("prefix", k) => {
+            let k = k.parse::<usize>().ok().filter(|k| *k > 1 && *k < n - 1 && *k != n / 2)?;
+            secret[..k].to_string()
+        }
+        ("suffix", "all-but-first") => secret[1..].to_string(),
+        ("suffix", "last4") => secret[n - 4..].to_string(),
+        ("ext", "+x") => format!("{secret}x"),
+        ("ext", "+nul") => format!("{secret}\u{0}"),
+        ("ext", "x+") => format!("x{secret}"),
+        ("ext", "doubled") => format!("{secret}{secret}"),
+        ("flip", p) => {
+            let p = pos(p)?;
+            let mut v = b.to_vec();
+            v[p] = if v[p] == b'Z' { b'Y' } else { b'Z' };
+            String::from_utf8(v).ok()?
+        }
+        ("case", "upper") => secret.to_ascii_uppercase(),
+        ("case", "lower") => secret.to_ascii_lowercase(),
+        ("case", "swap") => secret.chars().map(|c| if c.is_ascii_uppercase() { c.to_ascii_lowercase() } else { c.to_ascii_uppercase() }).collect(),
+        _ => return None,
+    };
+    if out == secret {
+        return None;
+    }
+    Some(out)
+}
+
+fn secret_class(name: &str) -> &'static str {
+    match name {
+        "admin" => "admin-token",
+        "admin-old" => "rotated-out-admin-token",
+        "revoked" => "revoked-pairing-token",
+        "expired" => "expired-pairing-token",
+        n if n.starts_with("pair:") => "pairing-token",
+        _ => "secret",
+    }
+}
+
+/// One (configuration, pre-step, secret, mutation) case on ONE fresh endpoint.
+fn run_cred(case: &Value) -> Result<Value, String> {
+    let cfg = Cfg::from_json(&case["cfg"]);
+    if !cfg.token {
+        return Err("credential-string family needs a configured auth token".into());
+    }
+    let base = scratch_base(case);
+    let mut env = build_env(cfg, &base, false)?;
+    let mutation = case["mutation"].as_str().unwrap_or("exact").to_string();
+    let mclass = mutation_class(&mutation);
+    // secrets of this endpoint: name -> (string, role it maps to while valid)
+    let mut secrets: BTreeMap<String, (String, Option<u8>)> = BTreeMap::new();
+    for (name, tok) in &env.creds {
+        let role = match name.as_str() {
+            "admin" => Some(3),
+            "wrong" => continue,
+            n if n.starts_with("pair:") => {
+                if !cfg.pairing {
+                    continue; // no store: the string is not a secret at all
+                }
+                n.strip_prefix("pair:").and_then(role_index)
+            }
+            _ => None, // revoked, expired
+        };
+        secrets.insert(name.clone(), (tok.clone(), role));
+    }
+    if case["pre"].as_str() == Some("rotate") {
+        // the admin replaces the auth token; from now on only the new string is the admin token
+        let line = request_line("config.set", Some(&json!({"control.auth_token": ROTATED_TOKEN})), Some(ADMIN_TOKEN));
+        let rep = send_once(&env.sock, line.as_bytes());
+        if rep.ok != Some(true) {
+            return Err(format!("pre-step: the admin could not rotate the auth token: {:?}", rep.raw));
+        }
+        secrets.insert("admin-old".into(), (ADMIN_TOKEN.into(), None));
+        secrets.insert("admin".into(), (ROTATED_TOKEN.into(), Some(3)));
+    }
+    let valid_strings: BTreeSet<String> = secrets.values().filter(|(_, r)| r.is_some()).map(|(s, _)| s.clone()).collect();
+
+    // the `auth` member that is sent
+    let (auth_value, expected, sclass, descr): (Value, Option<u8>, &'static str, String) = if let Some(j) = case.get("auth_json") {
+        if j.is_string() {
+            return Err("auth_json must not be a string".into());
+        }
+        (j.clone(), None, "non-string-auth", format!("the JSON value {j}"))
+    } else {
+        let sname = case["secret"].as_str().unwrap_or("");
+        let Some((secret, role)) = secrets.get(sname).cloned() else {
+            return Ok(json!({"skipped": "secret not constructible in this configuration"}));
+        };
+        let Some(m) = apply_mutation(&secret, &mutation) else {
+            return Ok(json!({"skipped": "mutation not applicable"}));
+        };
+        if mutation != "exact" && valid_strings.contains(&m) {
+            return Ok(json!({"skipped": "mutated string equals a valid secret"}));
+        }
+        let expected = if mutation == "exact" { role } else { None };
+        let descr = if mutation == "exact" {
+            format!("the {} ({sname})", secret_class(sname))
+        } else {
+            if mutation == "empty" {
+                "the empty string \"\"".to_string()
+            } else {
+                format!("{:?} = `{mutation}` of the {} ({sname}, {} bytes)", clip(&m, 24), secret_class(sname), secret.len())
+            }
+        };
+        // "" is the same string for every secret
+        (json!(m), expected, if mutation == "empty" { "any-secret" } else { secret_class(sname) }, descr)
+    };
+    let line_for = |ty: &str, params: Option<&Value>| -> String {
+        let mut o = Map::new();
+        o.insert("id".into(), json!(7));
+        o.insert("type".into(), json!(ty));
+        if let Some(p) = params {
+            o.insert("params".into(), p.clone());
+        }
+        o.insert("auth".into(), auth_value.clone());
+        Value::Object(o).to_string()
+    };
+    let mut viol: Vec<(String, String)> = Vec::new();
+    let mut accepted_n = 0u64;
+    let mut refused_n = 0u64;
+    let mut status_ok = false;
+    match expected {
+        None => {
+            let before = env.probe(false);
+            let mut accepted: Vec<String> = Vec::new();
+            for (ty, params) in cred_probe_requests() {
+                let _ = take_panic();
+                let rep = send_once(&env.sock, line_for(ty, params.as_ref()).as_bytes());
+                if let Some(p) = take_panic() {
+                    viol.push((format!("C18/cred/panic/{sclass}/{mclass}"), format!("`{ty}` with auth = {descr} made an endpoint thread panic: {}", clip(&p, 160))));
+                }
+                if rep.ok.is_none() {
+                    viol.push((format!("C18/cred/no-reply/{sclass}/{mclass}"), format!("`{ty}` with auth = {descr} got no well-formed reply ({:?})", rep.io_error)));
+                } else if rep.ok == Some(true) || rep.has_result {
+                    accepted.push(format!("`{ty}` -> {}", clip(rep.raw.as_deref().unwrap_or(""), 100)));
+                    accepted_n += 1;
+                } else {
+                    refused_n += 1;
+                }
+            }
+            let after = env.probe(true);
+            let effects = diff_keys(&before, &after);
+            if !accepted.is_empty() || !effects.is_empty() {
+                viol.push((
+                    format!("C18/cred/accepted/{sclass}/{mclass}"),
+                    format!(
+                        "auth token configured [{}{}]; auth = {descr} is not a valid credential, yet {} of {} requests were answered ok/with data ({}) and the state changed in {:?}",
+                        cfg.label(),
+                        if case["pre"].as_str() == Some("rotate") { "; after the admin rotated the auth token" } else { "" },
+                        accepted.len(),
+                        cred_probe_requests().len(),
+                        clip(&accepted.join("; "), 400),
+                        effects
+                    ),
+                ));
+            }
+        }
+        Some(r) => {
+            for ty in LEVEL_PROBES {
+                let params = match ty {
+                    "restart" => Some(json!({"mode":"warm"})),
+                    "io.write" => Some(json!({"address":"%QX0.0","value":"TRUE"})),
+                    _ => None,
+                };
+                let rep = send_once(&env.sock, line_for(ty, params.as_ref()).as_bytes());
+                let effect = match ty {
+                    "restart" => env.state.pending_restart.lock().map(|mut g| g.take().is_some()).unwrap_or(false),
+                    "io.write" => !env.debug.drain_io_writes().is_empty(),
+                    _ => false,
+                };
+                let acc = rep.ok == Some(true) || rep.has_result || effect;
+                if acc {
+                    accepted_n += 1;
+                    if ty == "status" {
+                        status_ok = true;
+                    }
+                } else {
+                    refused_n += 1;
+                }
+                if rep.ok.is_none() {
+                    viol.push((format!("C18/cred/no-reply/{sclass}/{mclass}"), format!("`{ty}` with auth = {descr} got no well-formed reply ({:?})", rep.io_error)));
+                } else if acc && r < req_of(case, ty) {
+                    viol.push((
+                        format!("C18/cred/role-exceeded/{sclass}/{}/{ty}", role_name(r)),
+                        format!("auth = {descr} maps to role {} but `{ty}` (requires {}) was performed; reply {}", role_name(r), role_name(req_of(case, ty)), clip(rep.raw.as_deref().unwrap_or(""), 120)),
+                    ));
+                }
+            }
+        }
+    }
+    Ok(json!({
+        "violations": viol.iter().map(|(s, w)| json!([s, w])).collect::<Vec<_>>(),
+        "expected_role": expected, "class": format!("{sclass}/{mclass}"),
+        "accepted": accepted_n, "refused": refused_n, "status_ok": status_ok,
+    }))
+}
+
+// =================================================================================================
 // Part D — X2: explicit-state search over the pairing sub-protocol (state = replayed history)
 // =================================================================================================
 
 struct MTok {
     token: String,
     id: String,
+    tail: String,
     role: u8,
     enabled: bool,
     expires_at: u64,
+    /// model second in which the token was claimed
+    claimed_at: u64,
+    /// label of the way it was disabled (signature class)
+    how_revoked: &'static str,
+}
+
+/// What the statement allows for a credential.
+#[derive(Clone, Copy, Debug, PartialEq)]
+enum Expect {
+    /// not a valid credential: every request must be refused
+    Refuse,
+    /// valid with this role
+    Role(u8),
+    /// exactly AT the reported expiry instant: the statement does not say whether the instant
+    /// itself is still valid — being refused and being served with this role are both accepted
+    Either(u8),
+}
+
+impl Expect {
+    /// performing a request that requires `required` is allowed
+    fn may(self, required: u8) -> bool {
+        match self {
+            Expect::Refuse => false,
+            Expect::Role(r) | Expect::Either(r) => r >= required,
+        }
+    }
+    /// refusing a request that requires `required` is unexpected
+    fn must(self, required: u8) -> bool {
+        match self {
+            Expect::Role(r) => r >= required,
+            _ => false,
+        }
+    }
 }
 
 #[derive(Default)]
@@ -1353,27 +1686,36 @@ struct PairModel {
 }
 
 impl PairModel {
-    /// (token string sent, role the model assigns: None = not a valid credential, class label)
-    fn cred(&self, name: &str, now: u64) -> (String, Option<u8>, String) {
+    /// (token string sent, what the statement allows for it, class label)
+    fn cred(&self, name: &str, now: u64) -> (String, Expect, String) {
         if name == "admin" {
-            return (ADMIN_TOKEN.to_string(), Some(3), "admin-token".into());
+            return (ADMIN_TOKEN.to_string(), Expect::Role(3), "admin-token".into());
         }
         if name == "bogus" {
-            return ("no-such-token".into(), None, "never-issued".into());
+            return ("no-such-token".into(), Expect::Refuse, "never-issued".into());
         }
         if name == "code" {
-            return (self.pending.as_ref().map(|p| p.0.clone()).unwrap_or_else(|| "000000".into()), None, "pending-code".into());
+            return (self.pending.as_ref().map(|p| p.0.clone()).unwrap_or_else(|| "000000".into()), Expect::Refuse, "pending-code".into());
+        }
+        if let Some(k) = name.strip_prefix("id").and_then(|k| k.parse::<usize>().ok()) {
+            // the listing id of a token (shown by pair.list, guessable) is not a credential
+            return match self.toks.get(k) {
+                Some(t) => (t.id.clone(), Expect::Refuse, "token-id".into()),
+                None => ("no-such-token".into(), Expect::Refuse, "never-issued".into()),
+            };
         }
         let k: usize = name.trim_start_matches("tok").parse().unwrap_or(usize::MAX);
         match self.toks.get(k) {
-            None => ("no-such-token".into(), None, "never-issued".into()),
+            None => ("no-such-token".into(), Expect::Refuse, "never-issued".into()),
             Some(t) => {
                 if !t.enabled {
-                    (t.token.clone(), None, "revoked".into())
+                    (t.token.clone(), Expect::Refuse, t.how_revoked.to_string())
                 } else if t.expires_at < now {
-                    (t.token.clone(), None, "expired".into())
+                    (t.token.clone(), Expect::Refuse, "expired".into())
+                } else if t.expires_at == now {
+                    (t.token.clone(), Expect::Either(t.role), format!("valid-{}", role_name(t.role)))
                 } else {
-                    (t.token.clone(), Some(t.role), format!("valid-{}", role_name(t.role)))
+                    (t.token.clone(), Expect::Role(t.role), format!("valid-{}", role_name(t.role)))
                 }
             }
         }
@@ -1386,8 +1728,27 @@ fn req_of(case: &Value, ty: &str) -> u8 {
     case["req"][ty].as_u64().unwrap_or(3) as u8
 }
 
+/// `pair` = the admin starts pairing and claims the code in the same second (two requests).
+fn expand_history(hist: &[Value]) -> Vec<Value> {
+    let mut out = Vec::new();
+    for ev in hist {
+        if ev["e"].as_str() == Some("pair") {
+            out.push(json!({"e":"start","cred":"admin","dt":ev["dt"].as_u64().unwrap_or(1)}));
+            out.push(json!({"e":"claim","code":"good","role":ev["role"],"cred":"admin","dt":0}));
+        } else {
+            out.push(ev.clone());
+        }
+    }
+    out
+}
+
 /// Replays one history on a fresh endpoint, checks every step against the reference model and
 /// then the acceptance of every credential at four role levels.
+///
+/// Clock: every event first advances the injected pairing clock by `dt` seconds (default 1;
+/// `dt` = 0 keeps the event in the SAME second as the previous one — this is how two tokens get
+/// the same listing id). The boundary ticks move the clock next to the expiry that the endpoint
+/// itself reported (`expires_at` of pair.start / of the listing).
 fn run_history(case: &Value) -> Result<Value, String> {
     let cfg = Cfg { token: true, debug: true, pairing: true, production: false };
     let base = scratch_base(case);
@@ -1401,12 +1762,28 @@ fn run_history(case: &Value) -> Result<Value, String> {
     let mut requests = 0u64;
     let mut steps_refused = 0u64;
     let mut unexpected_refusals = 0u64;
-    for ev in &hist {
-        now += 1;
+    let mut shared_id_claims = 0u64;
+    for ev in &expand_history(&hist) {
+        now += ev["dt"].as_u64().unwrap_or(1);
         env.clock.store(now, Ordering::SeqCst);
         let kind = ev["e"].as_str().unwrap_or("");
         if kind == "tick" {
-            now += if ev["what"].as_str() == Some("token") { 32 * 86400 } else { 400 };
+            // earliest expiry among the tokens that are still valid
+            let tok_exp = model.toks.iter().filter(|t| t.enabled && t.expires_at >= now).map(|t| t.expires_at).min();
+            let target = match ev["what"].as_str() {
+                Some("token") => Some(now + 32 * 86400),
+                Some("code") => Some(now + 400),
+                // the next event / the final probes run one second later:
+                Some("token-last-valid") => tok_exp.map(|e| e.saturating_sub(2)), // ... at expires_at - 1
+                Some("token-past") => tok_exp,                                    // ... at expires_at + 1
+                Some("code-past") => model.pending.as_ref().map(|p| p.1),         // ... at expires_at + 1
+                other => return Err(format!("unknown tick {other:?}")),
+            };
+            if let Some(t) = target {
+                if t > now {
+                    now = t;
+                }
+            }
             env.clock.store(now, Ordering::SeqCst);
             continue;
         }
@@ -1414,25 +1791,26 @@ fn run_history(case: &Value) -> Result<Value, String> {
         let (tok, role, class) = model.cred(cname, now);
         match kind {
             "start" => {
-                let allowed = role.map(|r| r >= req_of(case, "pair.start")).unwrap_or(false);
+                let rq = req_of(case, "pair.start");
                 let rep = send_once(&env.sock, request_line("pair.start", None, Some(&tok)).as_bytes());
                 requests += 1;
                 let v: Value = rep.raw.as_deref().and_then(|r| serde_json::from_str(r).ok()).unwrap_or(Value::Null);
                 let code = v["result"]["code"].as_str().map(str::to_string);
-                if rep.ok == Some(true) && !allowed {
-                    viol.push((format!("C18/pairing/start-performed/{class}"), format!("pair.start was performed for a {class} credential (needs {}); history {hist_s}", role_name(req_of(case, "pair.start")))));
+                if rep.ok == Some(true) && !role.may(rq) {
+                    viol.push((format!("C18/pairing/start-performed/{class}"), format!("pair.start was performed for a {class} credential (needs {}); history {hist_s}", role_name(rq))));
                 }
                 if let (Some(true), Some(code)) = (rep.ok, code) {
                     let exp = v["result"]["expires_at"].as_u64().unwrap_or(now);
                     model.pending = Some((code, exp));
                 } else {
                     steps_refused += 1;
-                    if allowed {
+                    if role.must(rq) {
                         unexpected_refusals += 1;
                     }
                 }
             }
             "claim" => {
+                let rq = req_of(case, "pair.claim");
                 let good = ev["code"].as_str() != Some("bad");
                 let code = match (&model.pending, good) {
                     (Some((c, _)), true) => c.clone(),
@@ -1451,8 +1829,7 @@ fn run_history(case: &Value) -> Result<Value, String> {
                 if let Some(r) = ev["role"].as_str() {
                     p.insert("role".into(), json!(r));
                 }
-                let allowed = role.map(|r| r >= req_of(case, "pair.claim")).unwrap_or(false);
-                let why_not = if !allowed {
+                let why_not = if !role.may(rq) {
                     Some(format!("insufficient-role:{class}"))
                 } else if model.pending.is_none() {
                     Some("no-pending-code".to_string())
@@ -1463,6 +1840,9 @@ fn run_history(case: &Value) -> Result<Value, String> {
                 } else {
                     None
                 };
+                // exactly at the reported expiry instant of the code (or of the claiming token)
+                // both outcomes are accepted
+                let at_instant = model.pending.as_ref().map(|p| p.1 == now).unwrap_or(false) || !role.must(rq);
                 let rep = send_once(&env.sock, request_line("pair.claim", Some(&Value::Object(p)), Some(&tok)).as_bytes());
                 requests += 1;
                 let v: Value = rep.raw.as_deref().and_then(|r| serde_json::from_str(r).ok()).unwrap_or(Value::Null);
@@ -1473,8 +1853,8 @@ fn run_history(case: &Value) -> Result<Value, String> {
                             viol.push((format!("C18/pairing/token-issued/{w}"), format!("pair.claim issued a token although the model says it must not ({w}); history {hist_s}")));
                         }
                         let tail: String = t.chars().rev().take(4).collect::<String>().chars().rev().collect();
-                        let known: BTreeSet<String> = model.toks.iter().map(|m| m.id.clone()).collect();
-                        let entry = store.list().into_iter().find(|e| e.tail.ends_with(&tail) && !known.contains(&e.id));
+                        // claim appends: the newest listed entry with this tail (ids may be shared)
+                        let entry = store.list().into_iter().rev().find(|e| e.tail.ends_with(&tail));
                         let (id, granted, exp) = match entry {
                             Some(e) => (e.id, role_index(e.role.as_str()).unwrap_or(3), e.expires_at),
                             None => {
@@ -1487,18 +1867,22 @@ fn run_history(case: &Value) -> Result<Value, String> {
                                 viol.push((format!("C18/pairing/role-escalation/requested-{}/granted-{}", role_name(rq), role_name(granted)), format!("pair.claim for role {} stored a token with role {}; history {hist_s}", role_name(rq), role_name(granted))));
                             }
                         }
-                        model.toks.push(MTok { token: t, id, role: granted, enabled: true, expires_at: exp });
+                        if model.toks.iter().any(|m| m.id == id) {
+                            shared_id_claims += 1;
+                        }
+                        model.toks.push(MTok { token: t, id, tail, role: granted, enabled: true, expires_at: exp, claimed_at: now, how_revoked: "revoked" });
                         model.pending = None;
                     }
                     _ => {
                         steps_refused += 1;
-                        if why_not.is_none() {
+                        if why_not.is_none() && !at_instant {
                             unexpected_refusals += 1;
                         }
                     }
                 }
             }
             "revoke" => {
+                let rq = req_of(case, "pair.revoke");
                 let target = ev["target"].as_str().unwrap_or("all");
                 let id = if target == "all" {
                     "all".to_string()
@@ -1506,15 +1890,20 @@ fn run_history(case: &Value) -> Result<Value, String> {
                     let k: usize = target.trim_start_matches("tok").parse().unwrap_or(usize::MAX);
                     model.toks.get(k).map(|t| t.id.clone()).unwrap_or_else(|| "pair-0".into())
                 };
-                let allowed = role.map(|r| r >= req_of(case, "pair.revoke")).unwrap_or(false);
                 let rep = send_once(&env.sock, request_line("pair.revoke", Some(&json!({"id": id})), Some(&tok)).as_bytes());
                 requests += 1;
                 if rep.ok == Some(true) {
-                    if !allowed {
+                    if !role.may(rq) {
                         viol.push((format!("C18/pairing/revoke-performed/{class}"), format!("pair.revoke was performed for a {class} credential; history {hist_s}")));
                     }
+                    // the endpoint confirmed the revocation of this id: from now on NO token listed
+                    // under the id is a valid credential
+                    let sharers = model.toks.iter().filter(|t| t.id == id).count();
                     for t in model.toks.iter_mut() {
                         if id == "all" || t.id == id {
+                            if t.enabled {
+                                t.how_revoked = if sharers > 1 { "revoked-shared-id" } else { "revoked" };
+                            }
                             t.enabled = false;
                         }
                     }
@@ -1526,6 +1915,7 @@ fn run_history(case: &Value) -> Result<Value, String> {
         }
     }
     // acceptance of every credential at the four levels
+    let last_event_at = now;
     now += 1;
     env.clock.store(now, Ordering::SeqCst);
     let mut names: Vec<String> = vec!["admin".into(), "bogus".into()];
@@ -1535,9 +1925,14 @@ fn run_history(case: &Value) -> Result<Value, String> {
     for k in 0..model.toks.len() {
         names.push(format!("tok{k}"));
     }
+    if !model.toks.is_empty() {
+        names.push("id0".into());
+    }
     let mut matrix = String::new();
     let mut accepted_n = 0u64;
     let mut refused_n = 0u64;
+    // (token index, request type) served by the endpoint
+    let mut served: Vec<(usize, &'static str)> = Vec::new();
     for n in &names {
         let (tok, role, class) = model.cred(n, now);
         for ty in LEVEL_PROBES {
@@ -1554,46 +1949,138 @@ fn run_history(case: &Value) -> Result<Value, String> {
                 _ => false,
             };
             let accepted = rep.ok == Some(true) || rep.has_result || effect;
-            let expected = role.map(|r| r >= req_of(case, ty)).unwrap_or(false);
+            let rq = req_of(case, ty);
             matrix.push(if accepted { '1' } else { '0' });
             if accepted {
                 accepted_n += 1;
+                if let Some(k) = n.strip_prefix("tok").and_then(|k| k.parse::<usize>().ok()) {
+                    served.push((k, ty));
+                }
             } else {
                 refused_n += 1;
             }
             if rep.ok.is_none() {
                 viol.push((format!("C18/pairing/no-reply/{ty}"), format!("no well-formed reply to `{ty}` ({:?}); history {hist_s}", rep.io_error)));
-            } else if accepted && !expected {
-                viol.push((format!("C18/pairing/accepted/{class}/{ty}"), format!("after history {hist_s} a {class} credential was accepted for `{ty}` (requires {}); reply {}", role_name(req_of(case, ty)), clip(rep.raw.as_deref().unwrap_or(""), 120))));
-            } else if !accepted && expected {
-                viol.push((format!("C18/pairing/refused/{class}/{ty}"), format!("after history {hist_s} a {class} credential was refused for `{ty}` (requires {}): {:?}", role_name(req_of(case, ty)), rep.error)));
+            } else if accepted && !role.may(rq) {
+                let detail = match n.strip_prefix("tok").and_then(|k| k.parse::<usize>().ok()).and_then(|k| model.toks.get(k)) {
+                    Some(t) if !t.enabled => format!(
+                        " ({n}: {} token listed under id {}, which {} token(s) of this history share; the endpoint confirmed the revocation of that id)",
+                        role_name(t.role),
+                        t.id,
+                        model.toks.iter().filter(|o| o.id == t.id).count()
+                    ),
+                    Some(t) => format!(" ({n}: {} token, id {}, reported expires_at {}, pairing clock now {now})", role_name(t.role), t.id, t.expires_at),
+                    None => String::new(),
+                };
+                viol.push((format!("C18/pairing/accepted/{class}/{ty}"), format!("after history {hist_s} a credential of class `{class}`{detail} was accepted for `{ty}` (requires {}); reply {}", role_name(rq), clip(rep.raw.as_deref().unwrap_or(""), 120))));
+            } else if !accepted && role.must(rq) {
+                viol.push((format!("C18/pairing/refused/{class}/{ty}"), format!("after history {hist_s} a credential of class `{class}` was refused for `{ty}` (requires {}): {:?}", role_name(rq), rep.error)));
             }
         }
         matrix.push('|');
     }
-    let toks_abs: Vec<String> = model.toks.iter().map(|t| format!("{}{}{}", t.role, if t.enabled { 'e' } else { 'r' }, if t.expires_at < now { 'x' } else { 'v' })).collect();
+    // the endpoint's own listing against its own behaviour: a token that pair.list reports as
+    // revoked (enabled = false) or does not report at all must not authorise anything
+    // (the probes above do not change pairing data, so the listing taken now is the one in force)
+    let listing = store.list();
+    for (k, ty) in &served {
+        let Some(t) = model.toks.get(*k) else { continue };
+        let entries: Vec<&trust_runtime::web::pairing::PairingSummary> = listing.iter().filter(|e| e.id == t.id && e.tail.ends_with(&t.tail)).collect();
+        if entries.is_empty() {
+            viol.push((format!("C18/pairing/accepted-but-not-listed/{ty}"), format!("after history {hist_s} token #{k} (id {}) is not in the pairing listing, yet it was accepted for `{ty}`", t.id)));
+        } else if entries.iter().all(|e| !e.enabled) {
+            viol.push((format!("C18/pairing/accepted-but-listed-revoked/{ty}"), format!("after history {hist_s} the pairing listing reports token #{k} (id {}) as revoked, yet it was accepted for `{ty}`", t.id)));
+        }
+    }
+    // a restart of the runtime re-loads the store from its file (`resolve_request_role` asks exactly
+    // this function): a credential that is revoked / expired must not come back, and no token may
+    // come back with a higher role
+    let mut reload_valid = 0u64;
+    let mut reload_invalid = 0u64;
+    {
+        let c = env.clock.clone();
+        let reloaded = PairingStore::with_clock(env.dir.join("pairing.json"), Arc::new(move || c.load(Ordering::SeqCst)));
+        for k in 0..model.toks.len() {
+            let (tok, role, class) = model.cred(&format!("tok{k}"), now);
+            let got = reloaded.validate_with_role(&tok).and_then(|r| role_index(r.as_str()));
+            match got {
+                Some(_) => reload_valid += 1,
+                None => reload_invalid += 1,
+            }
+            if let Some(r) = got {
+                let too_much = match role {
+                    Expect::Refuse => true,
+                    Expect::Role(m) | Expect::Either(m) => r > m,
+                };
+                if too_much {
+                    viol.push((
+                        format!("C18/pairing/valid-after-reload/{class}"),
+                        format!("after history {hist_s} a pairing store re-loaded from pairing.json (= runtime restart) maps the {class} credential tok{k} to role {}", role_name(r)),
+                    ));
+                }
+            }
+        }
+    }
+    // abstract state: per token role, enabled/revoked, distance to its expiry (v = more than a
+    // second away, n = expires next second, i = at the instant, x = past), the first token with the
+    // same listing id (id sharing), c = claimed in the second of the last event (a `dt` = 0 claim
+    // would share its id)
+    let toks_abs: Vec<String> = model
+        .toks
+        .iter()
+        .map(|t| {
+            let tclass = if t.expires_at < now {
+                'x'
+            } else if t.expires_at == now {
+                'i'
+            } else if t.expires_at == now + 1 {
+                'n'
+            } else {
+                'v'
+            };
+            let first_same = model.toks.iter().position(|o| o.id == t.id).unwrap_or(0);
+            format!("{}{}{}@{}{}", t.role, if t.enabled { 'e' } else { 'r' }, tclass, first_same, if t.claimed_at == last_event_at { "c" } else { "" })
+        })
+        .collect();
     let pend_abs = match &model.pending {
         None => "-",
         Some((_, e)) if *e < now => "x",
+        Some((_, e)) if *e == now => "i",
         Some(_) => "p",
     };
-    let impl_list: Vec<String> = store.list().iter().map(|e| format!("{}{}", e.role.as_str(), if e.enabled { 'e' } else { 'r' })).collect();
+    let impl_list: Vec<String> = listing.iter().map(|e| format!("{}{}", e.role.as_str(), if e.enabled { 'e' } else { 'r' })).collect();
     let key = format!("{}/{}/{}/{}", toks_abs.join(","), pend_abs, impl_list.join(","), matrix);
+    let ids: BTreeSet<&str> = model.toks.iter().map(|t| t.id.as_str()).collect();
     Ok(json!({
         "key": key, "n_tokens": model.toks.len(), "pending": model.pending.is_some(),
         "violations": viol.iter().map(|(s, w)| json!([s, w])).collect::<Vec<_>>(),
         "requests": requests, "accepted": accepted_n, "refused": refused_n,
         "steps_refused": steps_refused, "unexpected_refusals": unexpected_refusals,
+        "shared_id_claims": shared_id_claims, "shared_ids": model.toks.len() - ids.len(),
+        "revoked_shared": model.toks.iter().filter(|t| !t.enabled && t.how_revoked == "revoked-shared-id").count(),
+        "reload_valid": reload_valid, "reload_invalid": reload_invalid,
+        "at_instant": model.toks.iter().filter(|t| t.enabled && t.expires_at == now).count(),
+        "past_by_one": model.toks.iter().filter(|t| t.enabled && t.expires_at + 1 == now).count(),
     }))
 }
 
-/// Events enabled after a history that issued `n_tokens` tokens.
-fn pairing_events(n_tokens: usize, thorough: bool) -> Vec<Value> {
+/// Events enabled after a history that issued `n_tokens` tokens (`pending`: a code is pending).
+/// `legacy`: the menu as it was before the same-second / boundary events were added.
+fn pairing_events(n_tokens: usize, pending: bool, thorough: bool, legacy: bool) -> Vec<Value> {
     let mut creds = vec!["admin".to_string()];
     for k in 0..n_tokens.min(if thorough { 2 } else { 1 }) {
         creds.push(format!("tok{k}"));
     }
     let mut ev = Vec::new();
+    // admin pairs a new token, in the next second or in the SAME second as the previous event
+    let pair_roles: &[&str] = if thorough { &["viewer", "operator", "engineer"] } else { &["viewer", "engineer"] };
+    for dt in [1u64, 0] {
+        for r in pair_roles {
+            if !legacy {
+                ev.push(json!({"e":"pair","role":r,"dt":dt}));
+            }
+        }
+    }
     for c in &creds {
         ev.push(json!({"e":"start","cred":c}));
     }
@@ -1611,10 +2098,25 @@ fn pairing_events(n_tokens: usize, thorough: bool) -> Vec<Value> {
             ev.push(json!({"e":"revoke","target":"tok1","cred":"admin"}));
             ev.push(json!({"e":"revoke","target":"tok1","cred":"tok0"}));
         }
+        if n_tokens > 2 && !legacy {
+            ev.push(json!({"e":"revoke","target":"tok2","cred":"admin"}));
+        }
+        // revoke in the same second as the previous event (a following `pair` with dt 0 then
+        // re-uses the id of a revoked token)
+        if !legacy {
+            ev.push(json!({"e":"revoke","target":format!("tok{}", n_tokens - 1),"cred":"admin","dt":0}));
+        }
     }
     ev.push(json!({"e":"revoke","target":"all","cred":"admin"}));
     ev.push(json!({"e":"tick","what":"code"}));
     ev.push(json!({"e":"tick","what":"token"}));
+    if n_tokens > 0 && !legacy {
+        ev.push(json!({"e":"tick","what":"token-last-valid"}));
+        ev.push(json!({"e":"tick","what":"token-past"}));
+    }
+    if pending && !legacy {
+        ev.push(json!({"e":"tick","what":"code-past"}));
+    }
     ev
 }
 
@@ -1794,6 +2296,7 @@ fn exec_case(case: &Value) -> Value {
             })
         }),
         Some("x2") => run_history(case),
+        Some("cred") => run_cred(case),
         Some("sock") => run_sock(case),
         Some("null") => {
             // calibration: no request at all — the probes must not differ
@@ -1976,9 +2479,13 @@ pub fn run(ctx: &Ctx) -> EngineResult {
         })
         .collect();
     let nodl_pool = iso::PoolCfg { deadline: None, ..clone_pool(&pool) };
-    let max_depth = ctx.tier.pick(4usize, 6usize);
+    // passes: (name, legacy menu, depth). Quick: the full menu to depth 4. Thorough: the full menu to
+    // depth 5 and the original menu (no same-second events, no boundary ticks; every event one
+    // second after the previous one) to depth 6, as before the menu was extended.
+    let passes: Vec<(&str, bool, usize)> = if thorough { vec![("full", false, 5), ("legacy-menu", true, 6)] } else { vec![("full", false, 4)] };
+    let max_depth = passes[0].2;
+    let x2_pool = iso::PoolCfg { deadline: Some(Instant::now() + Duration::from_secs(ctx.tier.pick(25, 420))), ..clone_pool(&pool) };
     let mk = |h: &Vec<Value>| json!({"kind":"x2","dir":fast_s,"history":h,"req":req});
-    let mut seen: BTreeSet<String> = BTreeSet::new();
     let mut states = 0u64;
     let mut transitions = 0u64;
     let mut x2_requests = 0u64;
@@ -1986,88 +2493,231 @@ pub fn run(ctx: &Ctx) -> EngineResult {
     let mut x2_refused = 0u64;
     let mut x2_steps_refused = 0u64;
     let mut x2_unexpected = 0u64;
-    let mut depth_completed = 0usize;
-    let mut frontier: Vec<(Vec<Value>, usize)>;
-    let mut frontier_sizes = Vec::new();
+    let mut depth_completed_full = 0usize;
+    let mut x2_shared_id_states = 0u64;
+    let mut x2_shared_id_claims = 0u64;
+    let mut x2_revoked_shared = 0u64;
+    let mut x2_at_instant = 0u64;
+    let mut x2_past_by_one = 0u64;
+    let mut x2_reload_valid = 0u64;
+    let mut x2_reload_invalid = 0u64;
+    let mut pass_reports: Vec<Value> = Vec::new();
     let mut sample_hist: Vec<Value> = Vec::new();
-    let mut level: Vec<Vec<Value>> = vec![Vec::new()];
-    let mut x2_capped = false;
-    for depth in 0..=max_depth {
-        let lc: Vec<Value> = level.iter().map(&mk).collect();
-        let outs = iso::run_pool(&nodl_pool, &lc).map_err(Machinery)?;
-        let mut next_frontier = Vec::new();
-        let mut complete = true;
-        for ((h, case), o) in level.iter().zip(lc.iter()).zip(outs) {
-            match o {
-                None => complete = false,
-                Some(iso::Outcome::Ok(v)) => {
-                    if let Some(m) = v["machinery"].as_str() {
-                        return machinery(format!("X2 history failed to build: {m}"));
-                    }
-                    if depth > 0 {
-                        transitions += 1;
-                    }
-                    x2_requests += v["requests"].as_u64().unwrap_or(0);
-                    x2_accepted += v["accepted"].as_u64().unwrap_or(0);
-                    x2_refused += v["refused"].as_u64().unwrap_or(0);
-                    x2_steps_refused += v["steps_refused"].as_u64().unwrap_or(0);
-                    x2_unexpected += v["unexpected_refusals"].as_u64().unwrap_or(0);
-                    for x in v["violations"].as_array().cloned().unwrap_or_default() {
-                        rep.violation(Violation { signature: x[0].as_str().unwrap_or("C18/pairing/?").to_string(), what: x[1].as_str().unwrap_or("").to_string(), case: case.clone() });
-                    }
-                    let key = v["key"].as_str().unwrap_or("").to_string();
-                    if seen.insert(key) {
-                        states += 1;
-                        if depth >= 2 && sample_hist.len() < 2 {
-                            sample_hist.push(json!({"family":"x2","history":h,"state":v["key"]}));
+    let mut x2_capped: Option<String> = None;
+    for (pass_name, legacy, pass_depth) in &passes {
+        let mut seen: BTreeSet<String> = BTreeSet::new();
+        let mut frontier: Vec<(Vec<Value>, usize, bool)>;
+        let mut frontier_sizes = Vec::new();
+        let mut depth_completed = 0usize;
+        let mut level: Vec<Vec<Value>> = vec![Vec::new()];
+        for depth in 0..=*pass_depth {
+            let lc: Vec<Value> = level.iter().map(&mk).collect();
+            let outs = iso::run_pool(&x2_pool, &lc).map_err(Machinery)?;
+            let mut next_frontier = Vec::new();
+            let mut complete = true;
+            for ((h, case), o) in level.iter().zip(lc.iter()).zip(outs) {
+                match o {
+                    None => complete = false,
+                    Some(iso::Outcome::Ok(v)) => {
+                        if let Some(m) = v["machinery"].as_str() {
+                            return machinery(format!("X2 history failed to build: {m}"));
                         }
-                        next_frontier.push((h.clone(), v["n_tokens"].as_u64().unwrap_or(0) as usize));
+                        if depth > 0 {
+                            transitions += 1;
+                        }
+                        x2_requests += v["requests"].as_u64().unwrap_or(0);
+                        x2_accepted += v["accepted"].as_u64().unwrap_or(0);
+                        x2_refused += v["refused"].as_u64().unwrap_or(0);
+                        x2_steps_refused += v["steps_refused"].as_u64().unwrap_or(0);
+                        x2_unexpected += v["unexpected_refusals"].as_u64().unwrap_or(0);
+                        x2_shared_id_claims += v["shared_id_claims"].as_u64().unwrap_or(0);
+                        x2_shared_id_states += (v["shared_ids"].as_u64().unwrap_or(0) > 0) as u64;
+                        x2_revoked_shared += (v["revoked_shared"].as_u64().unwrap_or(0) > 0) as u64;
+                        x2_at_instant += (v["at_instant"].as_u64().unwrap_or(0) > 0) as u64;
+                        x2_past_by_one += (v["past_by_one"].as_u64().unwrap_or(0) > 0) as u64;
+                        x2_reload_valid += v["reload_valid"].as_u64().unwrap_or(0);
+                        x2_reload_invalid += v["reload_invalid"].as_u64().unwrap_or(0);
+                        for x in v["violations"].as_array().cloned().unwrap_or_default() {
+                            rep.violation(Violation { signature: x[0].as_str().unwrap_or("C18/pairing/?").to_string(), what: x[1].as_str().unwrap_or("").to_string(), case: case.clone() });
+                        }
+                        let key = v["key"].as_str().unwrap_or("").to_string();
+                        if seen.insert(key) {
+                            states += 1;
+                            if depth >= 2 && sample_hist.len() < 2 {
+                                sample_hist.push(json!({"family":"x2","history":h,"state":v["key"]}));
+                            }
+                            next_frontier.push((h.clone(), v["n_tokens"].as_u64().unwrap_or(0) as usize, v["pending"].as_bool().unwrap_or(false)));
+                        }
                     }
+                    Some(iso::Outcome::Panic(m)) => return machinery(format!("engine worker panicked in X2: {m}")),
+                    Some(iso::Outcome::Died(m)) => rep.violation(Violation { signature: "C18/pairing/process-died".into(), what: format!("endpoint process died during a pairing history: {}", clip(&m, 200)), case: case.clone() }),
+                    Some(iso::Outcome::Timeout) => rep.violation(Violation { signature: "C18/pairing/hang".into(), what: "pairing history did not finish within 120 s".into(), case: case.clone() }),
                 }
-                Some(iso::Outcome::Panic(m)) => return machinery(format!("engine worker panicked in X2: {m}")),
-                Some(iso::Outcome::Died(m)) => rep.violation(Violation { signature: "C18/pairing/process-died".into(), what: format!("endpoint process died during a pairing history: {}", clip(&m, 200)), case: case.clone() }),
-                Some(iso::Outcome::Timeout) => rep.violation(Violation { signature: "C18/pairing/hang".into(), what: "pairing history did not finish within 120 s".into(), case: case.clone() }),
+            }
+            frontier_sizes.push(next_frontier.len());
+            if !complete {
+                x2_capped = Some(format!("pass `{pass_name}`, depth {depth}"));
+                break;
+            }
+            depth_completed = depth;
+            frontier = next_frontier;
+            if depth == *pass_depth || frontier.is_empty() {
+                break;
+            }
+            level = Vec::new();
+            for (h, n, pending) in &frontier {
+                for ev in pairing_events(*n, *pending, thorough, *legacy) {
+                    let mut nh = h.clone();
+                    nh.push(ev);
+                    level.push(nh);
+                }
             }
         }
-        frontier_sizes.push(next_frontier.len());
-        if !complete {
-            x2_capped = true;
-            break;
+        if !*legacy {
+            depth_completed_full = depth_completed;
         }
-        depth_completed = depth;
-        frontier = next_frontier;
-        if depth == max_depth || frontier.is_empty() {
+        pass_reports.push(json!({"pass": pass_name, "max_depth": pass_depth, "depth_completed": depth_completed, "frontier_sizes": frontier_sizes, "distinct_states": seen.len()}));
+        eprintln!("[C18] X2 pass `{pass_name}` done at {:.1}s", ctx.elapsed());
+        if x2_capped.is_some() {
             break;
-        }
-        level = Vec::new();
-        for (h, n) in &frontier {
-            for ev in pairing_events(*n, thorough) {
-                let mut nh = h.clone();
-                nh.push(ev);
-                level.push(nh);
-            }
         }
     }
-    eprintln!("[C18] X2 done at {:.1}s", ctx.elapsed());
-    if x2_capped {
+    if let Some(at) = &x2_capped {
         exhaustive = false;
-        rep.cap(format!("X2 pairing search: wall cap reached at depth {}", depth_completed + 1));
+        rep.cap(format!("X2 pairing search: wall cap reached in {at}"));
     } else if states < 10 || x2_accepted == 0 || x2_refused == 0 {
         return machinery(format!("pairing search vacuous: {states} states, {x2_accepted} accepted / {x2_refused} refused probes"));
+    } else if x2_shared_id_states == 0 || x2_revoked_shared == 0 {
+        return machinery(format!("pairing search vacuous: {x2_shared_id_states} histories with two tokens under one listing id, {x2_revoked_shared} with a revoked shared id (same-second claims are not reached)"));
+    } else if x2_reload_valid == 0 || x2_reload_invalid == 0 {
+        return machinery(format!("pairing search vacuous: re-loaded stores validated {x2_reload_valid} tokens and rejected {x2_reload_invalid}"));
+    } else if x2_at_instant == 0 || x2_past_by_one == 0 {
+        return machinery(format!("pairing search vacuous: {x2_at_instant} histories probe a token at its expiry instant, {x2_past_by_one} one second later"));
     }
     for s in sample_hist {
         rep.sample(s);
     }
     rep.set("pairing_states", states);
     rep.set("pairing_transitions", transitions);
-    rep.set("pairing_depth_completed", depth_completed as u64);
+    rep.set("pairing_depth_completed", depth_completed_full as u64);
     rep.set("pairing_traces_validated_against_impl", transitions + 1);
-    rep.set("pairing_frontier_sizes", json!(frontier_sizes));
+    rep.set("pairing_passes", json!(pass_reports));
     rep.set("pairing_requests", x2_requests);
     rep.set("pairing_level_probes_accepted", x2_accepted);
     rep.set("pairing_level_probes_refused", x2_refused);
     rep.set("pairing_protocol_steps_refused", x2_steps_refused);
     rep.set("pairing_steps_refused_although_model_allows", x2_unexpected);
+    rep.set("pairing_claims_that_share_a_listing_id", x2_shared_id_claims);
+    rep.set("pairing_histories_with_shared_listing_id", x2_shared_id_states);
+    rep.set("pairing_histories_with_revoked_shared_id", x2_revoked_shared);
+    rep.set("pairing_histories_probing_a_token_at_its_expiry_instant", x2_at_instant);
+    rep.set("pairing_histories_probing_a_token_one_second_after_expiry", x2_past_by_one);
+    rep.set("pairing_tokens_valid_in_reloaded_store", x2_reload_valid);
+    rep.set("pairing_tokens_invalid_in_reloaded_store", x2_reload_invalid);
+
+    // ---- credential strings: secret x mutation -----------------------------------------------------------
+    let mut cred_cases: Vec<Value> = Vec::new();
+    let mk_cred = |cfg: Cfg, pre: Option<&str>, rest: Value| -> Value {
+        let mut c = json!({"kind":"cred","dir":fast_s,"cfg":cfg.to_json(),"req":req});
+        if let Some(p) = pre {
+            c["pre"] = json!(p);
+        }
+        if let Value::Object(o) = rest {
+            for (k, v) in o {
+                c[k.as_str()] = v;
+            }
+        }
+        c
+    };
+    let muts = mutation_names(thorough);
+    // simplest first: exact, then the shortest strings
+    for pairing in [true, false] {
+        let cfg = Cfg { token: true, debug: true, pairing, production: false };
+        for m in &muts {
+            for sname in CRED_SECRETS {
+                if !pairing && sname != "admin" {
+                    continue;
+                }
+                if sname == "pair:admin" && !admin_pairing_available {
+                    continue;
+                }
+                if m == "empty" && sname != "admin" {
+                    continue; // one empty string per configuration
+                }
+                cred_cases.push(mk_cred(cfg, None, json!({"secret": sname, "mutation": m})));
+            }
+        }
+        for (n, j) in [("json:null", Value::Null), ("json:true", json!(true)), ("json:number", json!(0)), ("json:array", json!([])), ("json:object", json!({}))] {
+            cred_cases.push(mk_cred(cfg, None, json!({"auth_json": j, "mutation": n})));
+        }
+    }
+    {
+        // after the admin rotated the auth token: the old string is no credential any more
+        let cfg = Cfg { token: true, debug: true, pairing: true, production: false };
+        for m in &muts {
+            for sname in ["admin", "admin-old"] {
+                if m == "empty" && sname != "admin" {
+                    continue;
+                }
+                cred_cases.push(mk_cred(cfg, Some("rotate"), json!({"secret": sname, "mutation": m})));
+            }
+        }
+    }
+    let couts = iso::run_pool(&nodl_pool, &cred_cases).map_err(Machinery)?;
+    let mut cred_run = 0u64;
+    let mut cred_skipped = 0u64;
+    let mut cred_requests = 0u64;
+    let mut cred_refused = 0u64;
+    let mut cred_classes: BTreeMap<String, u64> = BTreeMap::new();
+    for (case, o) in cred_cases.iter().zip(couts) {
+        match o {
+            Some(iso::Outcome::Ok(v)) => {
+                if let Some(m) = v["machinery"].as_str() {
+                    return machinery(format!("credential-string case failed to build: {m} ({})", clip(&case.to_string(), 200)));
+                }
+                if v.get("skipped").is_some() {
+                    cred_skipped += 1;
+                    continue;
+                }
+                cred_run += 1;
+                cred_requests += v["accepted"].as_u64().unwrap_or(0) + v["refused"].as_u64().unwrap_or(0);
+                cred_refused += v["refused"].as_u64().unwrap_or(0);
+                *cred_classes.entry(v["class"].as_str().unwrap_or("?").to_string()).or_insert(0) += 1;
+                if !v["expected_role"].is_null() && v["status_ok"].as_bool() != Some(true) {
+                    // non-vacuity: the exact string of a valid secret must work, otherwise the
+                    // refusals of its mutations prove nothing
+                    return machinery(format!("credential-string family vacuous: the exact valid secret `{}` was refused for `status` ({})", case["secret"].as_str().unwrap_or("?"), clip(&case.to_string(), 200)));
+                }
+                for x in v["violations"].as_array().cloned().unwrap_or_default() {
+                    let mut c = case.clone();
+                    c["dir"] = json!("");
+                    rep.violation(Violation { signature: x[0].as_str().unwrap_or("C18/cred/?").to_string(), what: x[1].as_str().unwrap_or("").to_string(), case: c });
+                }
+            }
+            Some(iso::Outcome::Died(m)) => rep.violation(Violation { signature: "C18/cred/process-died".into(), what: format!("the process hosting the endpoint died on a credential-string case: {}", clip(&m, 200)), case: case.clone() }),
+            Some(iso::Outcome::Timeout) => rep.violation(Violation { signature: "C18/cred/hang".into(), what: "credential-string case did not finish within 120 s".into(), case: case.clone() }),
+            other => return machinery(format!("credential-string case: {other:?}")),
+        }
+    }
+    for need in ["admin-token/exact", "any-secret/empty", "admin-token/proper-prefix", "admin-token/proper-extension", "admin-token/same-length-different", "admin-token/case-changed",
+        "pairing-token/exact", "pairing-token/proper-prefix", "pairing-token/proper-extension", "pairing-token/same-length-different", "pairing-token/case-changed",
+        "rotated-out-admin-token/exact", "revoked-pairing-token/exact", "non-string-auth/non-string"] {
+        if cred_classes.get(need).copied().unwrap_or(0) == 0 {
+            return machinery(format!("credential-string family vacuous: no case of class {need} was executed"));
+        }
+    }
+    if cred_refused == 0 {
+        return machinery("credential-string family vacuous: nothing was refused");
+    }
+    eprintln!("[C18] credential strings done at {:.1}s ({cred_run} cases)", ctx.elapsed());
+    rep.set("cred_string_cases", cred_run);
+    rep.set("cred_string_cases_not_applicable", cred_skipped);
+    rep.set("cred_string_requests", cred_requests);
+    rep.set("cred_string_requests_refused", cred_refused);
+    rep.set("cred_string_classes", json!(cred_classes));
+    if let Some(c) = cred_cases.iter().find(|c| c["mutation"] == "prefix:all-but-last" && c["secret"] == "pair:engineer") {
+        rep.sample(json!({"family":"cred","secret":c["secret"],"mutation":c["mutation"],"cfg":c["cfg"]}));
+    }
 
     // ---- malformed lines on a real long-lived connection ---------------------------------------------
     let sock_s = sock_dir.to_string_lossy().to_string();
@@ -2305,9 +2955,9 @@ pub fn run(ctx: &Ctx) -> EngineResult {
         rep.sample(json!({"family":"x1","type":c["type"],"params":c["params"],"cfg":c["cfg"]}));
     }
 
-    rep.set("evaluations", requests + x2_requests + sent);
+    rep.set("evaluations", requests + x2_requests + sent + cred_requests);
     rep.set("distinct_nontrivial", nontrivial);
-    rep.set("rule", "X1: every request name matched in control/handlers/*.rs, required_role_for_control_request and is_debug_request of the CURRENT source (plus unknown/garbled variants) x per-type params menu {absent, {}, effective params, wrong JSON types, non-object params; thorough: every single-field deletion/type flip/null and every config key x 6 value shapes} x endpoint configuration {auth token set/unset} x {debug on/off} x {pairing store present/absent} x {control mode debug/production (quick: production only for pause/resume/status)} x credential {none, wrong, admin token, pairing token of viewer/operator/engineer/admin, revoked, expired}; each request is ONE line sent over a unix socket to a real ControlServer serving a freshly built ControlState, with state probes before/after. distinct_nontrivial = number of (configuration, type, params) groups in which at least one credential was performed (ok reply or observable effect) AND at least one was refused, i.e. the gate discriminated. X2: BFS by replay over {pair.start, pair.claim(role,code), pair.revoke, clock ticks} with a reference model of valid credentials; in every state every credential is tried at four role levels. Malformed: every byte truncation of three valid request lines, 45 garbage lines, 8 oversized/deeply nested lines on one long-lived connection.");
+    rep.set("rule", "X1: every request name matched in control/handlers/*.rs, required_role_for_control_request and is_debug_request of the CURRENT source (plus unknown/garbled variants) x per-type params menu {absent, {}, effective params, wrong JSON types, non-object params; thorough: every single-field deletion/type flip/null and every config key x 6 value shapes} x endpoint configuration {auth token set/unset} x {debug on/off} x {pairing store present/absent} x {control mode debug/production (quick: production only for pause/resume/status)} x credential {none, wrong, admin token, pairing token of viewer/operator/engineer/admin, revoked, expired}; each request is ONE line sent over a unix socket to a real ControlServer serving a freshly built ControlState, with state probes before/after. distinct_nontrivial = number of (configuration, type, params) groups in which at least one credential was performed (ok reply or observable effect) AND at least one was refused, i.e. the gate discriminated. X2: BFS by replay over {pair.start, pair.claim(role,code), admin pairs a token (start+claim) in the next or in the SAME second as the previous event, pair.revoke by id (also in the same second) / all, clock ticks: past code expiry, past token expiry, to one second before / one second after the reported expiry of the earliest valid token, one second after the reported expiry of the pending code} with a reference model of valid credentials (tokens that share a listing id are revoked together; at the expiry instant both outcomes are accepted); in every state every credential (admin token, never-issued string, pending code, every issued token, the listing id of the first token) is tried at four role levels, the endpoint's listing is compared with what it served, and a store re-loaded from pairing.json is asked about every token. Credential strings: for every configured secret (admin token; pairing token of viewer/operator/engineer/admin; revoked and expired pairing token; admin token after / before a rotation by config.set) x {exact, empty, first byte, first half, all but last byte, all but first byte, last 4 bytes, +1 byte, +NUL, 1 byte+, doubled, first/middle/last byte changed, upper/lower/swapped case; thorough: every proper prefix length and every single-byte change} and for auth = null/true/0/[]/{}: status, restart, io.write, pair.list, config.set{control.auth_token} on one fresh endpoint with full state probes; only the exact string of a valid secret may be served. Malformed: every byte truncation of three valid request lines, 45 garbage lines, 8 oversized/deeply nested lines on one long-lived connection.");
     rep.set("exhaustive", exhaustive);
     rep.set("tier_bounds", json!({"pairing_depth": max_depth, "garbled_bases": garble_bases.len(), "configurations": if thorough { 16 } else { 8 }}));
     rep.assume("with no auth token configured, credentials other than a valid pairing token are treated as local trusted access (the statement does not constrain them)");
